@@ -91,6 +91,13 @@ def check(recipe) -> list[Fail]:
     try:
         pre = recipe.get("pre")
         if v == 1:
+            if recipe.get("peek"):
+                # the same path held a CURRENT-format library before, and this process has had it open
+                old_ = _lib(kind, path, readonly=False)
+                with old_.reading():
+                    list(old_.keys())
+                del old_
+                os.unlink(path)
             UKVFile(path, "x", h1=b"ML10Library").close()
             lib = _lib(kind, path, readonly=False, bufsize=BUFS[recipe["buf"]], encoding=enc)
         elif pre in ("v1", "v2"):
@@ -98,6 +105,12 @@ def check(recipe) -> list[Fail]:
             f = UKVFile(path, "x", h1=b"ML10Library" if pre == "v1" else None)
             f.put(b"stale", b"\x90")
             f.close()
+            if recipe.get("peek"):
+                # ... after this process has looked into it through another handle (without overwrite)
+                old_ = _lib(kind, path)
+                with old_.reading():
+                    list(old_.keys())
+                del old_
             lib = _lib(kind, path, readonly=False, overwrite=True, bufsize=BUFS[recipe["buf"]], encoding=enc)
         else:
             lib = _lib(kind, path, readonly=False, bufsize=BUFS[recipe["buf"]], encoding=enc)
@@ -283,7 +296,7 @@ def _case(kind, v, objs):
         "kind": st.just(kind), "v": st.just(v), "objs": st.lists(objs, min_size=1, max_size=3), "keys": _keys,
         "buf": st.integers(0, 3), "read_in_session": st.booleans(),
         "pre": st.sampled_from([None, None, None, "v1", "v2"]) if v == 2 else st.none(),
-        "rewrite": st.booleans(), "enc": st.integers(0, len(ENCODINGS) - 1), "parallel": st.sampled_from([0, 0, 0, 1, 2, 5]),
+        "rewrite": st.booleans(), "peek": st.booleans(), "enc": st.integers(0, len(ENCODINGS) - 1), "parallel": st.sampled_from([0, 0, 0, 1, 2, 5]),
         "f32cls": st.sampled_from([False, False, True]) if kind == "mol" else st.just(False),
     })
 
